@@ -283,3 +283,46 @@ def register(R):
     cps = R.contracts[f'{PPD}.shutdown']
     cps.props, cps.checks, cps.raises = ('C19',), ppd_sd_checks, {'Exception': only_propagates}
     cps.modifies = lambda c: [('f', c.self, '_started')]
+
+    # ------------------------------------------------------------------ utils.get_callbacks
+    # verified for subscriber lists of length 0, 1 and 2 with arbitrary subscribers (the loop is unrolled; the general
+    # statement for all lengths is the obvious induction over the same loop body and is NOT machine-checked: stated bound)
+    from .a_submit import TF as TFQ, META as METAQ, CARGS as CARGSQ
+
+    def tf_with_subscribers(n):
+        def mk(eng, st):
+            subs = st.alloc(HObj('list', items=[Opaque(f'subscriber{i}', kind='subscriber') for i in range(n)]))
+            ca = eng.make_symbolic(ObjT(CARGSQ), 'call_args', st)
+            st.obj(ca).fields['subscribers'] = subs
+            meta = eng.make_symbolic(ObjT(METAQ), 'meta', st)
+            st.obj(meta).fields['_call_args'] = ca
+            tf = eng.make_symbolic(ObjT(TFQ), 'transfer_future', st)
+            st.obj(tf).fields['_meta'] = meta
+            return tf
+        return Const(mk)
+
+    def gc_checks(c):
+        from pyvc.values import ExtMethod
+        tf = c.a_transfer_future
+        subs = c.new.obj(c.new.f(c.new.f(c.new.f(tf, '_meta'), '_call_args'), 'subscribers')).items
+        res = c.new.obj(c.result).items if isinstance(c.result, Ref) and c.new.obj(c.result).kind == 'list' else None
+        name = 'on_' + c.a_callback_type
+        if res is None:
+            return {'returns_a_list': B(False)}
+        # every returned callback is partial(<subscriber>.on_<type>, future=<this future>), subscribers in order
+        okshape = all(isinstance(r, PartialV) and isinstance(r.func, ExtMethod) and r.func.name == name and not r.args
+                      and set(r.kwargs) == {'future'} and r.kwargs['future'] is tf for r in res)
+        owners = [r.func.self_val for r in res] if okshape else []
+        in_order = okshape and [subs.index(o) for o in owners if o in subs] == sorted(subs.index(o) for o in owners if o in subs) \
+            and all(o in subs for o in owners) and len(set(id(o) for o in owners)) == len(owners)
+        # ... exactly for the subscribers that have the method
+        conj = [B(bool(in_order))]
+        for sb in subs:
+            has = c.engine.opaque_pred(sb, 'hasattr_' + name)
+            conj.append(has == B(any(o is sb for o in owners)))
+        return {'one_bound_callback_per_subscriber_that_has_the_method_in_subscriber_order': (z3.And(conj), ['C08', 'C09'])}
+
+    cgc = R.contracts['s3transfer.utils:get_callbacks']
+    cgc.props, cgc.checks, cgc.raises = ('C08', 'C09'), gc_checks, {}
+    cgc.param_alternatives = {'transfer_future': [(f'{n}_subscribers', tf_with_subscribers(n)) for n in (0, 1, 2)],
+                              'callback_type': [(t, Const(t)) for t in ('queued', 'progress', 'done')]}
